@@ -115,6 +115,8 @@ def attribute32(v):
             return 'C02+C07'   # a bitmap that changes without being called no longer equals the replay of its own history
         if op in TRF:
             return 'C07+C16'   # "returns the bitmap ... and leaves b unchanged": a static transform that writes elsewhere
+        if op in ('ParOr', 'ParAnd', 'ParHeapOr'):
+            return 'C07+C12'   # "no conflicting accesses ... to their input bitmaps": an input changed during the call
         return 'C07'
     if c in ('argument-slice-modified', 'result-aliases-input', 'sharing-witnessed'):
         # a result of a static transform that shares storage with b: mutating the result changes b (witnessed by the probe)
@@ -321,6 +323,7 @@ def c09(tier):
             {'kind': 'drive', 'profile': 'burst', 'traces': 160 if q else 3000, 'steps': 0},
             {'kind': 'drive', 'profile': 'kernel', 'traces': 300 if q else 6000, 'steps': 0},
             {'kind': 'drive', 'profile': 'aggkernel', 'traces': 200 if q else 4000, 'steps': 0},
+            {'kind': 'drive', 'profile': 'transform', 'traces': 120 if q else 2500, 'steps': 40},
         ],
     }
 
@@ -333,6 +336,8 @@ def c14(tier):
         'phases': [
             {'kind': 'drive', 'profile': 'all', 'traces': 200 if q else 4000, 'steps': 80, 'extra': []},
             {'kind': 'drive', 'profile': 'burst', 'traces': 240 if q else 4000, 'steps': 0},
+            {'kind': 'drive', 'profile': 'transform', 'traces': 120 if q else 2500, 'steps': 40},
+            {'kind': 'drive', 'profile': 'kernel', 'traces': 200 if q else 4000, 'steps': 0},
         ],
     }
 
